@@ -50,6 +50,9 @@ def main():
         traceback.print_exc()
         print("MACHINERY-ERROR property=%s unexpected exception" % args.pid)
         rc = 2
+        if ctx.violations:       # a violation had already been established before the failure
+            core.write_evidence(ctx, level=getattr(mod, "LEVEL", "model_checking"), rule="(run aborted after the violation)")
+            rc = 1
     finally:
         if not args.keep:
             ctx.cleanup()
